@@ -313,6 +313,11 @@ def _parse_einsum_entry(einsum_entry: dict) -> dict:
 
 def _parse_einsum_string(einsum_str: str) -> dict:
     original = einsum_str
+    if re.search(r"\w\s+\w", einsum_str):
+        raise ValueError(
+            f"Invalid einsum format: {original}. Whitespace may not separate two "
+            f"names; use an operator between tensors."
+        )
     einsum_str = re.sub(r"\s+", "", einsum_str.strip())
 
     if not einsum_str:
@@ -347,6 +352,12 @@ def _parse_einsum_string(einsum_str: str) -> dict:
     input_matches = re.findall(tensor_pattern, rhs)
     if not input_matches:
         raise ValueError(f"No input tensors: {original}, {rhs}")
+    residue = re.sub(tensor_pattern, "", rhs)
+    if re.search(r"[\w\[\]]", residue):
+        raise ValueError(
+            f"Invalid einsum format: {original}. Could not parse {residue!r} on the "
+            f"right-hand side as part of a tensor access."
+        )
 
     for m in input_matches:
         update(m, False)
